@@ -14,6 +14,7 @@ import (
 	"seehuhn.de/go/postscript"
 
 	"verif/harness/ev"
+	"verif/harness/iofault"
 	"verif/harness/pscanon"
 	"verif/harness/psgen"
 	"verif/harness/t1ref"
@@ -37,6 +38,9 @@ type c05case struct {
 	// Payloads are the binary strings the plaintext reads with readstring, in
 	// order; each is left on the operand stack
 	Payloads [][]byte `json:"payloads,omitempty"`
+	// Reader is the kind of reader (iofault.ReaderKinds) the encrypted form is
+	// handed over in; "" = bytes.Reader
+	Reader string `json:"reader,omitempty"`
 }
 
 func stateOf(text []byte) (string, error) {
@@ -46,9 +50,13 @@ func stateOf(text []byte) (string, error) {
 
 // stateAndStrings also returns the strings on the final operand stack.
 func stateAndStrings(text []byte) (string, [][]byte, error) {
+	return stateAndStringsVia("", text)
+}
+
+func stateAndStringsVia(kind string, text []byte) (string, [][]byte, error) {
 	intp := postscript.NewInterpreter()
 	intp.MaxOps = 5_000_000
-	err := intp.Execute(bytes.NewReader(text))
+	err := intp.Execute(iofault.NewReader(kind, text))
 	if err != nil {
 		return "", nil, err
 	}
@@ -88,7 +96,7 @@ func check(c *c05case) string {
 	if errB != nil {
 		return "" // the plaintext itself fails: nothing to compare (counted by the caller)
 	}
-	sa, strs, errA := stateAndStrings(a.Bytes())
+	sa, strs, errA := stateAndStringsVia(c.Reader, a.Bytes())
 	if errA == nil {
 		// byte-exact delivery: the payloads are, in order, among the strings
 		// left on the operand stack
@@ -186,13 +194,17 @@ func pairsCovered() int {
 func TestP1Eexec(t *testing.T) {
 	rec := ev.New("C05", "eexec")
 	defer rec.Finish(t)
-	rec.Rule("plaintext: probes that observe systemdict on the dictionary stack (`/eexecprobe 42 def`, `currentdict /add known`), a data program from the C02 generator run inside `userdict begin`, 0-3 binary payloads read with `n string currentfile exch readstring <sep><n bytes> pop` or through an RD procedure `n RD <sep><n bytes>` (one separator byte, then n arbitrary bytes, n up to 1500 so that sections straddle the scanner's 512-byte buffer), optionally dictionaries left on the dictionary stack; ending in `mark currentfile closefile` + one white-space byte (then clear-text trailer: 0-600 zeros in lines, cleartomark, further tokens) or running to the end of input; in a quarter of the cases with a trailer a second eexec section (hex or binary, own prefix, with a readstring payload) follows in the same stream. Encrypted by the harness cipher; the four leading cipher bytes are drawn (any for hex; for binary: first byte not white space and one of the four not a hex digit, corner values included); laid out as hex (digit case per digit, white space of all kinds at any position after the first four digits, any line width) or binary; 0-3 white-space bytes between `eexec` and the section; clear text before the section padded so that the section starts at any offset, half of the time within 12 bytes of a multiple of 512 (the scanner's buffer size). Oracle: same interpreter fed `pre systemdict begin <plaintext> [mark] end... <trailer>`: canonical state (stack incl. the strings read, dict stack, userdict, additions to systemdict, FontDirectory, resources) equal and both runs without error; and, absolutely, every payload is among the strings the encrypted run leaves on the operand stack, byte for byte and in order (a CR separator directly followed by a payload starting with LF is not generated: whether CR LF counts as one separator there is not settled by the references). Non-trivial: section >= 20 plaintext bytes and one of {binary form, interior white space, upper-case hex, payload with a byte < 32 or >= 128, trailer executed after closefile}; distinct by file bytes.")
+	rec.Rule("plaintext: probes that observe systemdict on the dictionary stack (`/eexecprobe 42 def`, `currentdict /add known`), a data program from the C02 generator run inside `userdict begin`, 0-3 binary payloads read with `n string currentfile exch readstring <sep><n bytes> pop` or through an RD procedure `n RD <sep><n bytes>` (one separator byte, then n arbitrary bytes, n up to 1500 so that sections straddle the scanner's 512-byte buffer), optionally dictionaries left on the dictionary stack; ending in `mark currentfile closefile` + one white-space byte (then clear-text trailer: 0-600 zeros in lines, cleartomark, further tokens) or running to the end of input; in a quarter of the cases with a trailer a second eexec section (hex or binary, own prefix, with a readstring payload) follows in the same stream. The encrypted form reaches Execute as a bytes.Reader or, for a third of the cases, as a strings.Reader, bytes.Buffer, bufio.Reader (default and 16-byte), a reader without extra methods, a bytes.Reader positioned behind other data, or a one-byte-per-read io.ByteReader. Encrypted by the harness cipher; the four leading cipher bytes are drawn (any for hex; for binary: first byte not white space and one of the four not a hex digit, corner values included); laid out as hex (digit case per digit, white space of all kinds at any position after the first four digits, any line width) or binary; 0-3 white-space bytes between `eexec` and the section; clear text before the section padded so that the section starts at any offset, half of the time within 12 bytes of a multiple of 512 (the scanner's buffer size). Oracle: same interpreter fed `pre systemdict begin <plaintext> [mark] end... <trailer>`: canonical state (stack incl. the strings read, dict stack, userdict, additions to systemdict, FontDirectory, resources) equal and both runs without error; and, absolutely, every payload is among the strings the encrypted run leaves on the operand stack, byte for byte and in order (a CR separator directly followed by a payload starting with LF is not generated: whether CR LF counts as one separator there is not settled by the references). Non-trivial: section >= 20 plaintext bytes and one of {binary form, interior white space, upper-case hex, payload with a byte < 32 or >= 128, trailer executed after closefile}; distinct by file bytes.")
 	rec.Assume("decryption correctness is independent of the library: the cipher text comes from the harness implementation of the Adobe algorithm (t1ref.Encrypt, key 55665, c1 52845, c2 22719)")
 	cfg := psgen.Config{TypeLiteral: true}
 	ev.SetupRapid(60000, 1500000)
 	rapid.Check(t, func(t *rapid.T) {
 		c := &c05case{}
 		var feat []string
+		if rapid.IntRange(0, 2).Draw(t, "otherreader") == 0 {
+			c.Reader = rapid.SampledFrom(iofault.ReaderKinds).Draw(t, "readerkind")
+			feat = append(feat, "reader:"+c.Reader)
+		}
 		if rapid.Bool().Draw(t, "pre") {
 			c.Pre = []byte("/before (x) def 3 dict begin /inner 7 def\n")
 		}
